@@ -1140,8 +1140,8 @@ Qed.
 Lemma eqv_shape_bool : forall a b : val,
   val_eqv a b = true -> has_len a = has_len b /\ is_mapping a = is_mapping b.
 Proof.
-  intros a b. destruct a, b; cbn [val_eqv val_eqb has_len is_mapping]; intros H;
-    try discriminate H; split; reflexivity.
+  intros a b. destruct a, b; intros H; try (split; reflexivity);
+    cbn [val_eqv val_eqb] in H; discriminate H.
 Qed.
 
 (** ** the full-strength write/fetch statement fails for a document whose root is a
@@ -1157,4 +1157,10 @@ Lemma fetch_scalar_root_fails :
     write_step FJson json_codec ctx [] = Ok files /\
     fs_read "/T/n.json" files = Some "5" /\
     fetch_step FJson json_codec ctx files = Err "TypeError" "object of type 'int' has no len()".
-Proof. exists scalar_ctx. eexists. vm_compute. repeat split. Qed.
+Proof. exists scalar_ctx, [("/T/n.json", "5")]. vm_compute. repeat split. Qed.
+
+Lemma json_not_toml : FJson = FToml -> forall P : Prop, P.
+Proof. discriminate. Qed.
+
+Lemma yaml_not_toml : FYaml = FToml -> forall P : Prop, P.
+Proof. discriminate. Qed.
